@@ -313,6 +313,12 @@ func runCheck(def *CheckDef, flags map[string]string) int {
 		if !ok {
 			c.Status = "unconfirmed"
 			unconfirmed++
+			if unconfirmed <= 5 {
+				dir := filepath.Join(verifDir(), "replay", def.ID)
+				os.MkdirAll(dir, 0o755)
+				b, _ := json.MarshalIndent(c.Fixture, "", " ")
+				os.WriteFile(filepath.Join(dir, fmt.Sprintf("unconfirmed-%d.json", unconfirmed)), b, 0o644)
+			}
 			fmt.Printf("UNCONFIRMED property=%s job=%s labels=%v native_failed=%v native_panicked=%v path=%q\n",
 				def.ID, c.Job.ID, c.Labels, c.Native.Failed, c.Native.Panicked, c.Job.Params["path"])
 			continue
